@@ -304,6 +304,165 @@ fn run_worker(id: &str, oracle_id: &str, seed: u64, worker: u64, cases: u32, sto
     }
 }
 
+/// Second shrinking pass, on the normalised case: greedily delete callers, operations, body steps, wakers and
+/// producer ops, and try simpler schedules, as long as the same property (and clause) is still violated.
+/// proptest shrinks the raw value; this pass removes what normalisation had already turned into no-ops and what
+/// proptest's per-component search left behind.
+fn minimise(id: &str, clause: &str, case: &Case) -> Case {
+    let still = |c: &Case| -> bool {
+        if c.op_count() == 0 {
+            return false;
+        }
+        let out = run_case(c, &RunOpts::default());
+        out.violations.iter().any(|v| v.prop == id && v.clause == clause)
+    };
+    let mut best = case.clone();
+    best.assign_ids();
+    let mut budget = 4000;
+    loop {
+        let mut progress = false;
+        // simpler schedules first
+        for cand in [Sched::Delay { points: vec![], rr: false }, Sched::Delay { points: vec![], rr: true }, Sched::Walk { stay: 0, bytes: vec![], tail: Tail::RoundRobin }] {
+            if best.sched != cand && budget > 0 {
+                budget -= 1;
+                let mut c = best.clone();
+                c.sched = cand;
+                if still(&c) {
+                    best = c;
+                    progress = true;
+                    break;
+                }
+            }
+        }
+        if let Sched::Walk { stay, bytes, tail } = best.sched.clone() {
+            if bytes.len() > 1 && budget > 0 {
+                budget -= 1;
+                let mut c = best.clone();
+                c.sched = Sched::Walk { stay, bytes: bytes[..bytes.len() / 2].to_vec(), tail };
+                if still(&c) {
+                    best = c;
+                    progress = true;
+                }
+            }
+        }
+        for pi in 0..best.phases.len() {
+            // whole callers / wakers / producers
+            let mut ci = 0;
+            while ci < best.phases[pi].callers.len() && budget > 0 {
+                if best.phases[pi].callers[ci].iter().all(|o| matches!(o, Op::Nop)) && !best.phases[pi].callers[ci].is_empty() {
+                    best.phases[pi].callers[ci].clear();
+                }
+                if !best.phases[pi].callers[ci].is_empty() {
+                    budget -= 1;
+                    let mut c = best.clone();
+                    c.phases[pi].callers[ci].clear();
+                    if still(&c) {
+                        best = c;
+                        progress = true;
+                    }
+                }
+                ci += 1;
+            }
+            let mut wi = 0;
+            while wi < best.phases[pi].wakers.len() && budget > 0 {
+                budget -= 1;
+                let mut c = best.clone();
+                c.phases[pi].wakers.remove(wi);
+                if still(&c) {
+                    best = c;
+                    progress = true;
+                } else {
+                    wi += 1;
+                }
+            }
+            // single operations (kept as Nop so that WaitFor indices stay valid)
+            for ci in 0..best.phases[pi].callers.len() {
+                for oi in 0..best.phases[pi].callers[ci].len() {
+                    if matches!(best.phases[pi].callers[ci][oi], Op::Nop) || budget == 0 {
+                        continue;
+                    }
+                    budget -= 1;
+                    let mut c = best.clone();
+                    c.phases[pi].callers[ci][oi] = Op::Nop;
+                    if still(&c) {
+                        best = c;
+                        progress = true;
+                        continue;
+                    }
+                    // body steps
+                    let nsteps = match &best.phases[pi].callers[ci][oi] {
+                        Op::Desync { body, .. } | Op::Sync { body, .. } | Op::TrySync { body, .. } | Op::FutDesync { body, .. } | Op::FutSync { body, .. } | Op::After { body, .. } | Op::PipeIn { body, .. } | Op::Pipe { body, .. } => body.len(),
+                        _ => 0,
+                    };
+                    let mut si = 0;
+                    let mut n = nsteps;
+                    while si < n && budget > 0 {
+                        budget -= 1;
+                        let mut c = best.clone();
+                        match &mut c.phases[pi].callers[ci][oi] {
+                            Op::Desync { body, .. } | Op::Sync { body, .. } | Op::TrySync { body, .. } | Op::FutDesync { body, .. } | Op::FutSync { body, .. } | Op::After { body, .. } | Op::PipeIn { body, .. } | Op::Pipe { body, .. } => {
+                                body.remove(si);
+                            }
+                            _ => {}
+                        }
+                        if still(&c) {
+                            best = c;
+                            n -= 1;
+                            progress = true;
+                        } else {
+                            si += 1;
+                        }
+                    }
+                }
+            }
+            for si in 0..best.phases[pi].producers.len() {
+                let mut k = 0;
+                while k < best.phases[pi].producers[si].len() && budget > 0 {
+                    budget -= 1;
+                    let mut c = best.clone();
+                    c.phases[pi].producers[si].remove(k);
+                    if still(&c) {
+                        best = c;
+                        progress = true;
+                    } else {
+                        k += 1;
+                    }
+                }
+            }
+        }
+        if !progress || budget == 0 {
+            break;
+        }
+    }
+    // drop trailing Nops and empty callers that nothing refers to
+    let uses_waitfor = best.phases.iter().any(|p| p.callers.iter().any(|c| c.iter().any(|o| matches!(o, Op::WaitFor { .. }))));
+    if !uses_waitfor {
+        for ph in best.phases.iter_mut() {
+            for c in ph.callers.iter_mut() {
+                c.retain(|o| !matches!(o, Op::Nop));
+            }
+            let before: Vec<Vec<Op>> = ph.callers.clone();
+            ph.callers.retain(|c| !c.is_empty());
+            if ph.callers.is_empty() {
+                ph.callers = before;
+            }
+        }
+        let mut c = best.clone();
+        c.assign_ids();
+        if still(&c) {
+            best = c;
+        } else {
+            best = {
+                let mut b = best;
+                b.assign_ids();
+                b
+            };
+        }
+    }
+    best.assign_ids();
+    best
+}
+
 fn write_replay(id: &str, case: &Case, out: &Outcome, v: &world::Violation, seed: u64, dir: &std::path::Path) -> std::path::PathBuf {
     let sig = signature(case, v);
     let rf = ReplayFile { property: v.prop.clone(), clause: v.clause.clone(), detail: v.detail.clone(), signature: sig, case: case.clone(), trace: out.trace.clone(), seed, program: case.pretty() };
@@ -480,6 +639,12 @@ fn cmd_check(id: &str, tier: &str, cases_override: Option<u32>, workers: usize, 
             print_outcome(&case, &out);
         } else if let Some(v) = violations_for(&out, &oracle_id).first() {
             violations = 1;
+            // second shrinking pass on the normalised case
+            let small = minimise(&oracle_id, &v.clause, &case);
+            let out_small = run_case(&small, &RunOpts { record_history: true, ..Default::default() });
+            let (case, out) = if violations_for(&out_small, &oracle_id).first().is_some() { (small, out_small) } else { (case, out) };
+            let v = violations_for(&out, &oracle_id).first().cloned().cloned().unwrap();
+            let v = &v;
             let path = write_replay(id, &case, &out, v, seed, &rdir);
             println!("--- shrunk failing case for {} ---", id);
             print_outcome(&case, &out);
